@@ -593,6 +593,33 @@ async fn do_multipart(os: &dyn ObjectStore, path: &Path, parts: &[Vec<u8>]) -> o
     Ok(())
 }
 
+static LOST_ACK_RETRIES: std::sync::atomic::AtomicU64 = std::sync::atomic::AtomicU64::new(0);
+static LOST_ACK_RETRIES_OK: std::sync::atomic::AtomicU64 = std::sync::atomic::AtomicU64::new(0);
+
+/// Multipart upload whose `complete()` loses its acknowledgement: the second backend mutation of
+/// the completion (the pointer switch of a plain commit) LANDS and an error is returned; the
+/// caller retries `complete()` on the same uploader, as it would after a timeout. (Calling
+/// `complete` on an upload that reported success is implementation-defined in the object_store
+/// contract and is not done here.) The uploader keeps one generation for its whole life, so the
+/// retry re-commits the generation the key may already name: its reclaim step must spare it
+/// (seeded change C08-5). The retry's backend steps are crash points like any other.
+async fn do_multipart_lost_ack(os: &dyn ObjectStore, rec: &RecStore, path: &Path, parts: &[Vec<u8>]) -> object_store::Result<()> {
+    let mut up = os.put_multipart(path).await?;
+    for p in parts {
+        up.put_part(PutPayload::from(p.clone())).await?;
+    }
+    rec.set_fault(Fault::FailAfter(rec.attempts() + 1));
+    let first = up.complete().await;
+    rec.reset_faults();
+    if first.is_ok() {
+        return Ok(());
+    }
+    LOST_ACK_RETRIES.fetch_add(1, std::sync::atomic::Ordering::Relaxed);
+    up.complete().await?;
+    LOST_ACK_RETRIES_OK.fetch_add(1, std::sync::atomic::Ordering::Relaxed);
+    Ok(())
+}
+
 async fn apply_op(w: &Wrap, rec: &RecStore, op: &Op) -> (String, Option<usize>) {
     let r: object_store::Result<Option<usize>> = match op {
         Op::Put { key, data, create, fault } => {
@@ -615,7 +642,12 @@ async fn apply_op(w: &Wrap, rec: &RecStore, op: &Op) -> (String, Option<usize>) 
             r
         }
         Op::Multipart { key, parts } => {
-            do_multipart(w.os.as_ref(), &Path::from(KEYS[*key]), parts).await.map(|_| None)
+            // every upload with an odd total size loses the acknowledgement of its completion
+            if parts.iter().map(|p| p.len()).sum::<usize>() % 2 == 1 {
+                do_multipart_lost_ack(w.os.as_ref(), rec, &Path::from(KEYS[*key]), parts).await.map(|_| None)
+            } else {
+                do_multipart(w.os.as_ref(), &Path::from(KEYS[*key]), parts).await.map(|_| None)
+            }
         }
         Op::Copy { from, to, create } => w
             .os
@@ -1641,6 +1673,9 @@ fn main() {
             gc_case(c, rng, st, 0, t.pick(12, 40), false, false)
         });
     }
+    run.stats.add("multipart_completions_retried_after_lost_ack", LOST_ACK_RETRIES.load(std::sync::atomic::Ordering::Relaxed));
+    run.stats.add("multipart_retried_completions_ok", LOST_ACK_RETRIES_OK.load(std::sync::atomic::Ordering::Relaxed));
+    run.floor("multipart_retried_completions_ok", 100);
     run.floor("crash_points", 2000);
     for k in ["put", "multipart", "copy", "rename", "delete", "gc", "legacy_migration", "put_with_backend_fault"] {
         run.floor(&format!("crash_inflight:{k}"), 20);
